@@ -586,3 +586,29 @@ Fixpoint filter_map {A B} (f : A -> option B) (l : list A) : list B :=
   | [] => []
   | x :: r => match f x with Some b => b :: filter_map f r | None => filter_map f r end
   end.
+
+(* cdi resolve with several OCI Spec files (cdiResolveDevices): the files are resolved one after the other, each like a single
+   one; the first failure ends the run.  singles: stdout and exit status of the run on each file alone. *)
+Fixpoint resolve_many (singles : list (string * Z)) : string * Z :=
+  match singles with
+  | [] => ("", 0%Z)
+  | (out, code) :: r =>
+      if Z.eqb code 0 then let '(o, c) := resolve_many r in (out ++ o, c) else (out, code)
+  end.
+
+(* ------------------------------------------------------------------ cdi monitor *)
+(* monitor.go / cdiPrintCache: at every refresh (the first one a second after the start) the aspects named on the command line
+   are listed one after the other, non-verbose (no -v), with the functions of the listing sub-commands; no argument means all *)
+Definition monitor_aspect (a : string) : option (list sub) :=
+  if String.eqb a "vendors" || String.eqb a "vendor" then Some [SVendors]
+  else if String.eqb a "classes" || String.eqb a "class" then Some [SClasses]
+  else if String.eqb a "specs" || String.eqb a "spec" then Some [SSpecs []]
+  else if String.eqb a "devices" || String.eqb a "device" then Some [SDevices]
+  else if String.eqb a "all" then Some [SVendors; SClasses; SSpecs []; SDevices]
+  else None.
+Definition monitor_args (args : list string) : list string := match args with [] => ["all"] | _ => args end.
+Definition render_monitor (args : list string) (v : lib_view) : list string :=
+  flat_map (fun a => match monitor_aspect a with
+                     | Some subs => flat_map (fun s => render_sub s v) subs
+                     | None => ["Unrecognized CDI aspect/object " ++ quote a ++ "... ignoring it"]
+                     end) (monitor_args args).
